@@ -6,7 +6,8 @@ CONSTANTS
   ReadLens = {10}
   FlankIds = {2, 4}
   FlankPairs = "diag"
-  MMBases = {"A", "C", "G", "T"}
+  MMBases = {"A", "C", "G", "T", "N"}
+  BoundaryPs = {0, 1, 2}
   XBases = {"A", "G"}
   Protos = {"nla", "chic"}
   Variant = "design"
